@@ -338,6 +338,37 @@ def cycle_among_imported_actions_only(rng, case):
 
 
 @imut
+def add_dependency_names_a_generated_id(rng, case):
+    """One connection makes stitching generate a checkpoint (target = an imported checkpoint, or an imported action
+    that already has a dependency); ANOTHER connection's add_dependency names a checkpoint id that exists in no
+    document -- the next free id, which the generated checkpoint receives."""
+    native = case["native"]
+    imp = rng.choice(case["imports"])
+    isc = imp["schema"]
+    used = set(c["to"] for c in imp["conns"])
+    generating = [c for c in imp["conns"] if c.get("render_native_target") is None and
+                  (c["to"][0] == "checkpoint" or next((a for a in isc["actions"] if a["id"] == c["to"][1]), {"dep": None})["dep"] is not None)]
+    if not generating:
+        gens = [("checkpoint", c["id"]) for c in isc["checkpoints"] if c["ctx"] is None] + \
+               [("action", a["id"]) for a in isc["actions"] if a["ctx"] is None and a["dep"] is not None]
+        gens = [t for t in gens if t not in used]
+        if not gens:
+            return None
+        t = rng.choice(gens)
+        imp["conns"].append({"to": t, "add": _fresh_native_cp(rng, case), "render_native_target": None})
+        used.add(t)
+        generating = [imp["conns"][-1]]
+    tgt = _some_target(rng, imp)
+    if tgt is None:
+        return None
+    n_gen = sum(1 for i2 in case["imports"] for c in i2["conns"] if c.get("render_native_target") is None and
+                (c["to"][0] == "checkpoint" or next((a for a in i2["schema"]["actions"] if a["id"] == c["to"][1]), {"dep": None})["dep"] is not None))
+    top = max(c["id"] for c in native["checkpoints"])
+    imp["conns"].append({"to": tgt, "add": ("checkpoint", top + rng.randint(1, max(1, n_gen))), "render_native_target": None})
+    return "add_dependency names the id that a checkpoint generated by stitching receives"
+
+
+@imut
 def scope_violation_through_connection(rng, case):
     """the added dependency is a checkpoint bound to a native thread group: the imported target is outside it"""
     native = case["native"]
